@@ -148,7 +148,7 @@ func polyOfIn(root *ssa.Function, v ssa.Value, atom func(ssa.Value) string) (pol
 
 func checkC15(c *Ctx, r *Report) {
 	r.Explain = "Sensor conversion as structure: (1) the polynomial normal form of ConversionFactors.ConvertReading's returned expression (conversions erased, T(k)=10^k opaque) equals (M·x + B·T(BExp))·T(RExp); (2) the lineariser table maps each of the 11 linearisation codes to the specified function (closures: a single math.Pow with the stated constant exponent/base); (3) the analog-format parser table maps unsigned/1's/2's complement to zero-extension, complement.Ones and sign-extension; (4) exact true-sets of IsLinear and IsLinearised; (5) reader selection and, in Read, the order and sentinels of the reading-unavailable and scanning-disabled tests before the conversion; (6) which wire bits feed the flags. Not floating-point accuracy."
-	r.NotDecided = []string{"floating-point rounding of math.Pow10 and the linearisation functions", "one's-complement arithmetic values (C20 not claimed for it)", "wire layout of M/B/exponents (C07)"}
+	r.NotDecided = []string{"floating-point rounding of math.Pow10 and the linearisation functions", "wire layout of M/B/exponents (C07)"}
 	r.Trusted = []string{"go/types, go/ssa (x/tools v0.29.0)", "package math", "IPMI v2.0 §36.3 formula and table 43-1 linearisation codes"}
 	ir := newInitReader(c)
 
